@@ -52,10 +52,12 @@ prop('C08', True,
      "concatenated chunks is not modelled (token level).",
      "Lean 4 proof (prefix-freeness by mutual induction) + proved negation with witness + differential correspondence + collision search")
 
-EXEC_NOTE = 'Modelled, not verified: a store/lock call is one atomic event at this layer (locks: C04; result publication: C05); task functions deterministic; the redis protocol runs against an in-memory stand-in; signals are raised at gate points (function entry/exit, hooks, wait-loop sleep) rather than between arbitrary byte codes; worker task lists/scanning order are abstracted (a worker may look at any task at any time), so full completeness is established by trace validation and monitors, not by a theorem.'
+EXEC_NOTE = 'Modelled, not verified: a store/lock call is one atomic event at this layer (locks: C04; result publication: C05); task functions deterministic; the redis protocol runs against an in-memory stand-in; signals are raised at gate points (function entry/exit, hooks, wait-loop sleep) rather than between arbitrary byte codes; worker task lists/scanning order are abstracted (a worker may look at any task at any time); completeness is proved relative to the scan obligation (C01.exec_complete), which the real loop is shown to keep on every extracted path and every validated history, not for arbitrarily long task lists by a theorem about the text of the loop.'
 TIE = ' Tie to the code, checked on every run: (1) translator: every root-to-leaf path of the real jug.jug.execution_loop (task lists [t], [d,t(d)], [t,u]; all 8 flag settings; all consistent answers of store/locks/functions/hooks incl. SystemExit/KeyboardInterrupt) is re-extracted into Generated/WorkerPaths.lean and the kernel checks each against the worker-local transition function (theorem worker_conforms); accept = lstep /\\ environment consistency is proved (accept_local, local_env_accept). (2) trace validation: real multi-worker runs of generated jugfiles under a gated scheduler on dict/file/file+pack/redis-protocol backends are replayed event by event through the compiled model, with equal final store. (3) failing-input search: property monitors on the same real runs.'
 prop('C01', True, "Lean transition system of the distributed execution protocol (any number of workers, any interleaving). Theorems: exec_sound (every stored result = sequential denotation, for all histories incl. "
-     "failures/stops/crashes/lock cleanup), loads_are_reference, load_enabled (aggressive unloading harmless), rerun_noop, exec_complete_partial/started_tasks_have_reference_value." + TIE,
+     "failures/stops/crashes/lock cleanup), loads_are_reference, load_enabled (aggressive unloading harmless), rerun_noop, exec_complete + exec_complete_reference (failure-free history of any W >= 1 workers, every worker kept the scan "
+     "obligation `scanRun` and left with status 0 => every task is stored with its sequential value; joint invariant of protocol state and a scan ghost), exec_complete_partial/started_tasks_have_reference_value. The scan obligation is tied to the "
+     "code twice: worker_scans_all (kernel, every extracted path of execution_loop) and evaluation of scanRun by the driver on every validated real history." + TIE,
      EXEC_NOTE, "Lean 4 proof (invariants by induction over histories) + kernel-checked extracted worker-loop paths + trace validation of gated real runs")
 prop('C02', True, "Theorems: mutex_run/mutex_cs (no two workers inside the same task in any reachable state), no_rerun_once_stored, result_stable, publish_before_release, at_most_once/stored_never_started/"
      "exactly_once_if_stored (ghost run counter) for unboundedly many workers and arbitrary histories." + TIE + " Targeted schedules: stall a worker between check and lock for every task; late joiners; early quitters.",
